@@ -20,8 +20,7 @@ import (
 //   guard  – like shared, with guard bytes between the items
 //   op line   (one per layout):  h <limit> <arrays> <slices…>   (format: Drv/C06.lean)
 //   impl line: <class> <gasLeft> <#trace lines> <fnv64(trace)> <last dump> <arrays after the run>
-// compared with the HEAP instance of the model (Go slice semantics incl. the runtime's
-// growth policy), so in-place appends must agree byte for byte.
+// compared with the HEAP instance of the model (Go slice semantics), byte for byte.
 // Direct oracle (implementation alone): caller-owned arrays unchanged; all layouts give the
 // same class / gas / trace; a CAT never changes the items below its result.
 
@@ -274,39 +273,34 @@ func c06case(c *Ctx) *vmCase {
 	return k
 }
 
-// c06catCheck scans a kept trace text: after a depth-0 CAT/CATPUSHDATA that follows a depth-0
-// instruction, the items below the result must be the previous stack minus the two operands.
-func c06catCheck(text string) string {
-	lines := strings.Split(text, "\n")
-	var prev, cur []string
-	prevOp, prevDepth0 := "", false
-	flush := func(nextDepth0 bool) string {
-		bad := ""
-		if prevDepth0 && nextDepth0 && (prevOp == "CAT" || prevOp == "CATPUSHDATA") && len(prev) >= 2 && len(cur) >= 1 {
-			want := prev[2:]
-			got := cur[1:]
-			if strings.Join(want, ",") != strings.Join(got, ",") {
-				bad = fmt.Sprintf("before %s: [%s]  after: [%s]", prevOp, strings.Join(prev, ","), strings.Join(cur, ","))
-			}
-		}
-		return bad
+// c06catCheck scans a kept trace text: after a depth-0 CAT/CATPUSHDATA the items below the result
+// must be the previous depth-0 stack minus the two operands.  `args` is the initial stack (bottom first).
+func c06catCheck(text string, args [][]byte) string {
+	var stack0, cur []string
+	for i := len(args) - 1; i >= 0; i-- {
+		stack0 = append(stack0, fmt.Sprintf("%x", args[i]))
 	}
-	for _, ln := range lines {
+	pending := ""
+	for _, ln := range strings.Split(text, "\n") {
 		if strings.HasPrefix(ln, "vm ") {
 			f := strings.Fields(ln)
-			d0 := f[1] == "0"
-			if b := flush(d0); b != "" {
-				return b
+			if f[1] != "0" {
+				cur = nil
+				continue
 			}
-			if d0 {
-				if prevDepth0 && !strings.HasPrefix(prevOp, "NOPx") {
-					prev = cur
+			if pending != "" {
+				next := cur
+				if strings.HasPrefix(pending, "NOPx") {
+					next = stack0
 				}
-				prevOp = f[6]
-				prevDepth0 = true
-			} else {
-				prevDepth0 = false
+				if (pending == "CAT" || pending == "CATPUSHDATA") && len(stack0) >= 2 && len(next) >= 1 {
+					if strings.Join(stack0[2:], ",") != strings.Join(next[1:], ",") {
+						return fmt.Sprintf("before %s: [%s]  after: [%s]", pending, strings.Join(stack0, ","), strings.Join(next, ","))
+					}
+				}
+				stack0 = next
 			}
+			pending = f[6]
 			cur = nil
 		} else if strings.HasPrefix(ln, "  stack ") {
 			if strings.HasPrefix(ln, "  stack 0:") {
@@ -348,7 +342,7 @@ func c06one(c *Ctx, k *vmCase, tag string) {
 		// direct oracle 2: layout independence
 		if kind == "fresh" {
 			first = res.line
-			if bad := c06catCheck(res.sink.keep.String()); bad != "" {
+			if bad := c06catCheck(res.sink.keep.String(), k.args); bad != "" {
 				failCapped(c, sigF1item, bad)
 			}
 		} else if res.line != first {
